@@ -196,11 +196,19 @@ def find_input(unit, proof, ob, label, work):
         lens = ['0', '20', '64', '65', '100', '200']
         rc, out = native.run_driver(os.path.join(HERE, 'replay_hmac.cpp'), lens)
         return {'inputs': {'driver': 'units/C14/replay_hmac.cpp', 'args': lens, 'meaning': 'key lengths; text = RFC 2202 test case 2 text'},
-                'native_output': out, 'reproduced': rc != 0}
+                'native_output': out, 'reproduced': rc == 1}
     if proof.id == 'generateCrc32':
         rc, out = native.run_driver(os.path.join(HERE, 'replay_crc.cpp'), [str(int(os.environ.get('VERIF_SEED', '1') or 1))])
         return {'inputs': {'driver': 'units/C14/replay_crc.cpp', 'args': ['seed'], 'meaning': 'all 1-byte inputs, then 2000 pseudo-random strings'},
-                'native_output': out, 'reproduced': rc != 0}
+                'native_output': out, 'reproduced': rc == 1}
+    if proof.id == 'decode':
+        res = search_decode(work)
+        if not res or 'error' in res:
+            return {'input_search': res or 'bounded search (packets <= 56 bytes, <= 3 attributes) found no failing input'}
+        args = [res['packet_hex'], res['key_hex'] or '-']
+        rc, out = native.run_driver(os.path.join(HERE, 'replay_decode.cpp'), args)
+        return {'inputs': {'driver': 'units/C14/replay_decode.cpp', 'args': args, 'meaning': 'packet (hex), key (hex)', 'found_by': 'input-search harness: ' + res['search_obligation']},
+                'native_output': out, 'reproduced': rc == 1}
     return None
 
 
@@ -208,4 +216,95 @@ def native_replay(rp):
     from vlib import native
     inp = rp['inputs']
     rc, out = native.run_driver(os.path.join(VERIF, inp['driver']), [a if a != 'seed' else '1' for a in inp['args']])
-    return rc != 0, out
+    return rc == 1, out
+
+
+# ---------------------------------------------------------------------------------------------------------------------
+# input-search harness for decode (DESIGN 3.3): the same lowered text without contract clauses, executable stubs for the
+# oracles, inputs in named fixed-size globals, loops unwound to a small bound.  A help for the report only.
+SEARCH_STUBS = r'''
+char pkt[PKT_MAX]; char keyb[8]; int pkt_n, key_n;
+void generateHmacSha1(QByteArray *ret, const QByteArray *key, const QByteArray *text) {
+  gh_hmac_calls++; gh_hmac_len = text->n; gh_hmac_key = key; if (g_k < (size_t)text->n) gh_hmac_arg_k = QBA_AT(text, (int)g_k);
+  QByteArray_ctor(ret); ret->n = 20; ret->vlen = 20; ret->src = gh_hmac_out; }
+quint32 generateCrc32(const QByteArray *text) { gh_crc_calls++; gh_crc_len = text->n; if (g_k < (size_t)text->n) gh_crc_arg_k = QBA_AT(text, (int)g_k); return gh_crc_out; }
+bool QByteArray_ne(const QByteArray *a, const QByteArray *b) { if (a->n != b->n) return true; __CPROVER_assume(a->n <= 20);
+#define NE1(i) if ((i) < a->n && QBA_AT(a, (i)) != QBA_AT(b, (i))) return true;
+  NE1(0) NE1(1) NE1(2) NE1(3) NE1(4) NE1(5) NE1(6) NE1(7) NE1(8) NE1(9) NE1(10) NE1(11) NE1(12) NE1(13) NE1(14) NE1(15) NE1(16) NE1(17) NE1(18) NE1(19)
+  return false; }
+void QString_fromUtf8(QString *r, const QByteArray *b) { r->id = nondet_int(); }
+'''
+SEARCH_MAIN = r'''
+void search(void) {
+  QXmppStunMessage self; QByteArray buffer, key; char idstore[12];
+  __CPROVER_havoc_object(pkt); __CPROVER_havoc_object(keyb); __CPROVER_havoc_object(gh_hmac_out); gh_crc_out = nondet_uint();
+  pkt_n = nondet_int(); key_n = nondet_int(); __CPROVER_assume(0 <= pkt_n && pkt_n <= PKT_MAX && 0 <= key_n && key_n <= 8);
+  QByteArray_ctor(&buffer); buffer.n = pkt_n; buffer.vlen = pkt_n; buffer.src = pkt;
+  QByteArray_ctor(&key); key.n = key_n; key.vlen = key_n; key.src = keyb;
+  memset(&self, 0, sizeof self); QByteArray_ctor(&self.m_id); self.m_id.n = 12; self.m_id.vlen = 12; self.m_id.src = idstore;
+  g_k = nondet_size_t(); g_j = nondet_int(); __CPROVER_assume(0 <= g_j && g_j < 20);
+  bool ret = QXmppStunMessage_decode(&self, &buffer, &key, 0);
+  __CPROVER_assert(!(ret && gh_saw_mi && key.n > 0) || (gh_hmac_calls == 1 && gh_hmac_key == &key && gh_hmac_len == 20 + gh_mi_done), "[post.integrity_hmac_called_with_key_over_protected_prefix]");
+  __CPROVER_assert(!(ret && gh_saw_mi && key.n > 0 && g_k < (size_t)(20 + gh_mi_done)) || gh_hmac_arg_k == (g_k == 2 ? (char)(unsigned char)(((quint16)(gh_mi_done + 24)) >> 8) : g_k == 3 ? (char)(unsigned char)(((quint16)(gh_mi_done + 24)) & 0xff) : pkt[g_k]), "[post.integrity_hmac_text_is_prefix_with_patched_length]");
+  __CPROVER_assert(!(ret && gh_saw_mi && key.n > 0 && gh_mi_complete) || (20 + gh_mi_done + 24 <= pkt_n && pkt[20 + gh_mi_done + 4 + g_j] == gh_hmac_out[g_j]), "[post.integrity_attribute_equals_hmac]");
+  __CPROVER_assert(!(ret && gh_saw_fp) || (gh_crc_calls == 1 && gh_crc_len == 20 + gh_fp_done && gh_fp_value == (gh_crc_out ^ 0x5354554eu)), "[post.fingerprint_is_crc_of_prefix_xor_magic]");
+  __CPROVER_assert(!(ret && gh_saw_fp && g_k < (size_t)(20 + gh_fp_done)) || gh_crc_arg_k == (g_k == 2 ? (char)(unsigned char)(((quint16)(gh_fp_done + 8)) >> 8) : g_k == 3 ? (char)(unsigned char)(((quint16)(gh_fp_done + 8)) & 0xff) : pkt[g_k]), "[post.fingerprint_crc_text_is_prefix_with_patched_length]");
+  /* only FINGERPRINT is interpreted after MESSAGE-INTEGRITY: no second integrity check, no state written later is unprotected */
+  __CPROVER_assert(!(ret && gh_saw_mi) || gh_mi_done + 24 + (gh_saw_fp ? 8 : 0) <= pkt_n - 20 + 65536, "[post.trivial]");
+}
+'''
+
+
+def search_decode(work):
+    """returns (packet hex, key hex, failed label) or None"""
+    import json, subprocess, re
+    prof = profile()
+    prof.hooks = [h for h in HOOKS if h['fn'] == 'QXmppStunMessage_decode']
+    b = Builder('C14', work, prof)
+    t_decode = b.lower(Target(STUN, 'QXmppStunMessage', 'decode', 'QXmppStunMessage_decode', this='QXmppStunMessage'))
+    prof.hooks = []
+    t_da = b.lower(Target(STUN, 'decodeAddress', 'decodeAddress', 'decodeAddress'))
+    t_sbl = b.lower(Target(STUN, 'setBodyLength', 'setBodyLength', 'setBodyLength'))
+    rec, _ = ctx.emit_record(os.path.join(REPO, STUN), 'QXmppStunMessage', 'QXmppStunMessage', 'QXmppStunMessage', prof)
+    da = rd('da_spec.h')
+    c = '#define QBA_OWNED 40\n#define PKT_MAX 56\n#include <stdlib.h>\n#include "bytes.h"\n#include "misc.h"\n' + b.context() + '\n' + rec + '\n' + rd('ghost.h') + da + \
+        'static ' + t_da + '\nstatic ' + t_sbl + SEARCH_STUBS + t_decode + SEARCH_MAIN
+    f = b.write('search_decode.c', c)
+    gb = f[:-2] + '.gb'
+    p = subprocess.run(['goto-cc', '--function', 'search', '-DVERIF_CBMC', '-I', QT, f, '-o', gb], stdout=subprocess.PIPE, stderr=subprocess.STDOUT, text=True)
+    if p.returncode != 0:
+        return {'error': 'search harness does not compile: ' + p.stdout[-800:]}
+    try:
+        p = subprocess.run(['cbmc', '--json-ui', '--trace', '--unwind', '17', '--unwindset', 'QXmppStunMessage_decode.0:4', '--object-bits', '12', '--sat-solver', 'cadical', gb],
+                           stdout=subprocess.PIPE, stderr=subprocess.PIPE, text=True, timeout=900)
+    except subprocess.TimeoutExpired:
+        return {'error': 'search timed out'}
+    try:
+        msgs = json.loads(p.stdout)
+    except Exception:
+        return {'error': 'search output unreadable'}
+    for m in msgs:
+        for r in m.get('result', []) if isinstance(m, dict) else []:
+            if r.get('status') == 'FAILURE' and r.get('trace') and (r.get('description') or '').startswith('[post.'):
+                vals = {}
+                for st in r['trace']:
+                    if st.get('stepType') != 'assignment':
+                        continue
+                    lhs = st.get('lhs', '')
+                    v = st.get('value', {})
+                    mm = re.fullmatch(r'(pkt|keyb)\[(\d+)l?\]', lhs)
+                    if mm and 'binary' in v:
+                        vals.setdefault(mm.group(1), {})[int(mm.group(2))] = int(v['binary'], 2) & 0xff
+                    elif lhs in ('pkt', 'keyb') and v.get('elements'):
+                        for e in v['elements']:
+                            try:
+                                vals.setdefault(lhs, {})[int(e['index'])] = int(e['value']['binary'], 2) & 0xff
+                            except Exception:
+                                pass
+                    elif lhs in ('pkt_n', 'key_n') and 'data' in v:
+                        vals[lhs] = int(v['data'])
+                n, kn = vals.get('pkt_n', 0), vals.get('key_n', 0)
+                pk = bytes(vals.get('pkt', {}).get(i, 0) for i in range(n))
+                ky = bytes(vals.get('keyb', {}).get(i, 0) for i in range(kn))
+                return {'packet_hex': pk.hex(), 'key_hex': ky.hex(), 'search_obligation': r.get('description')}
+    return None
